@@ -63,8 +63,8 @@ Fixpoint xlate (idf : nat -> str) (cfg : acfg) (b : base) (pk : option kind) (pu
          match l with
          | [] => []
          | c :: r =>
-           if kind_eqb (e_kind c) k' && accessible c
-           then (lower (e_name c), xlate idf cfg b (Some k) url (shown (c_display cfg) c) c) :: go r
+           if kind_eqb (e_kind c) k' && accessible c && listed cfg kept k c
+           then (lower (e_name c), xlate idf cfg b (Some k) url kept c) :: go r
            else go r
          end) kids in
     let dct (slot : str) : list (str * xval) :=
@@ -136,7 +136,8 @@ Proof.
   - intros H. destruct (IH H) as (c & A & B & C). exists c; auto.
 Qed.
 
-Definition dict_sel (k' : kind) (c : ent) : bool := kind_eqb (e_kind c) k' && accessible c.
+Definition dict_sel (cfg : acfg) (kept : bool) (k k' : kind) (c : ent) : bool :=
+  kind_eqb (e_kind c) k' && accessible c && listed cfg kept k c.
 Definition list_sel (cfg : acfg) (kept : bool) (k : kind) (slot : str) (c : ent) : bool :=
   str_eqb (slot_of (e_kind c)) slot && listed cfg kept k c.
 
@@ -145,9 +146,9 @@ Lemma export_ent_eq idf cfg pk purl kept id k name p kids :
   let url := own_url pk purl k (idf id) in
   JDict (node_entries k name url p
     (fun slot => flat_map (fun k' => if opt_eqb str_eqb (pub_class k') (Some slot)
-                                     then sel_map (dict_sel k')
+                                     then sel_map (dict_sel cfg kept k k')
                                             (fun c => (lower (e_name c),
-                                                       export_ent idf cfg (Some k) url (shown (c_display cfg) c) c)) kids
+                                                       export_ent idf cfg (Some k) url kept c)) kids
                                      else []) PUB_KINDS)
     (fun slot => sel_map (list_sel cfg kept k slot) (export_ent idf cfg (Some k) url kept) kids)).
 Proof. reflexivity. Qed.
@@ -157,9 +158,9 @@ Lemma xlate_eq idf cfg b pk purl kept id k name p kids :
   let url := own_url pk purl k (idf id) in
   node_x b k name url p
     (fun slot => flat_map (fun k' => if opt_eqb str_eqb (pub_class k') (Some slot)
-                                     then sel_map (dict_sel k')
+                                     then sel_map (dict_sel cfg kept k k')
                                             (fun c => (lower (e_name c),
-                                                       xlate idf cfg b (Some k) url (shown (c_display cfg) c) c)) kids
+                                                       xlate idf cfg b (Some k) url kept c)) kids
                                      else []) PUB_KINDS)
     (fun slot => sel_map (list_sel cfg kept k slot) (xlate idf cfg b (Some k) url kept) kids).
 Proof. reflexivity. Qed.
@@ -269,11 +270,11 @@ Proof.
     apply IH; [exact Hc|].
     match type of L2 with
     | jsize (JDict ?d) < _ =>
-      assert (L : jsize (export_ent idf cfg (Some k) url (shown (c_display cfg) c) c) < jsize (JDict d))
+      assert (L : jsize (export_ent idf cfg (Some k) url kept c) < jsize (JDict d))
     end.
     { apply (jsize_in_dict (lower (e_name c))). apply in_flat_map. exists k'. split.
       - exact Hk'.
-      - rewrite Ek. apply (sel_map_in (dict_sel k') (fun c0 => (lower (e_name c0), _)) kids c Hc Sc). }
+      - rewrite Ek. apply (sel_map_in (dict_sel cfg kept k k') (fun c0 => (lower (e_name c0), _)) kids c Hc Sc). }
     lia.
   - intros sl Hsl.
     pose proof (jsize_in_dict _ _ _ (list_slot_entry k name url p DV LV sl Hsl)) as L2.
@@ -362,18 +363,19 @@ Qed.
 Lemma sel_map_filter {X} sel (f : ent -> X) l : sel_map sel f l = map f (filter sel l).
 Proof. induction l as [|c r IH]; simpl; [reflexivity|]. destruct (sel c); simpl; now rewrite IH. Qed.
 
-(* the accessible entities of module m that a USE can import from class dict w *)
-Definition class_members (m : ent) (w : str) : list ent :=
-  flat_map (fun k' => if opt_eqb str_eqb (pub_class k') (Some w) then filter (dict_sel k') (e_kids m) else [])
+(* the entities of module m that a USE can import from class dict w: accessible, and documented by A *)
+Definition class_members (cfg : acfg) (m : ent) (w : str) : list ent :=
+  flat_map (fun k' => if opt_eqb str_eqb (pub_class k') (Some w)
+                      then filter (dict_sel cfg true (e_kind m) k') (e_kids m) else [])
            PUB_KINDS.
 
 (* Fortran: the accessible names of one class in a module are distinct (case-insensitively) *)
-Definition names_distinct (m : ent) : Prop :=
-  forall w, In w PUB_DICTS -> NoDup (map (fun c => lower (e_name c)) (class_members m w)).
+Definition names_distinct (cfg : acfg) (m : ent) : Prop :=
+  forall w, In w PUB_DICTS -> NoDup (map (fun c => lower (e_name c)) (class_members cfg m w)).
 
-Lemma dict_as_map {X} (f : ent -> X) kids w :
-  flat_map (fun k' => if opt_eqb str_eqb (pub_class k') (Some w) then sel_map (dict_sel k') f kids else []) PUB_KINDS
-  = map f (flat_map (fun k' => if opt_eqb str_eqb (pub_class k') (Some w) then filter (dict_sel k') kids else [])
+Lemma dict_as_map {X} cfg kept k (f : ent -> X) kids w :
+  flat_map (fun k' => if opt_eqb str_eqb (pub_class k') (Some w) then sel_map (dict_sel cfg kept k k') f kids else []) PUB_KINDS
+  = map f (flat_map (fun k' => if opt_eqb str_eqb (pub_class k') (Some w) then filter (dict_sel cfg kept k k') kids else [])
                     PUB_KINDS).
 Proof.
   induction PUB_KINDS as [|k' ks IH]; simpl; [reflexivity|].
@@ -390,13 +392,15 @@ Proof. simpl. apply str_eqb_refl. Qed.
 Lemma kind_eqb_refl k : kind_eqb k k = true.
 Proof. destruct k; reflexivity. Qed.
 
-Lemma member_in m e w :
-  In e (e_kids m) -> accessible e = true -> pub_class (e_kind e) = Some w -> In e (class_members m w).
+Lemma member_in cfg m e w :
+  e_kind m = KModule ->
+  In e (e_kids m) -> accessible e = true -> shown (c_display cfg) e = true ->
+  pub_class (e_kind e) = Some w -> In e (class_members cfg m w).
 Proof.
-  intros Hin Ha Hp. unfold class_members. apply in_flat_map. exists (e_kind e). split.
+  intros Km Hin Ha Hs Hp. unfold class_members. apply in_flat_map. exists (e_kind e). split.
   - now apply (pub_class_in _ w).
   - rewrite Hp, opt_eqb_refl. apply filter_In. split; [assumption|].
-    unfold dict_sel. now rewrite kind_eqb_refl, Ha.
+    unfold dict_sel, listed. rewrite Km. simpl. now rewrite kind_eqb_refl, Ha, Hs.
 Qed.
 
 Lemma x_url_xlate idf cfg b pk purl kept e :
@@ -408,13 +412,12 @@ Proof. destruct e. reflexivity. Qed.
 
 Theorem used_lookup_roundtrip idf cfg b id name p kids e w :
   let m := Ent id KModule name p kids in
-  names_distinct m ->
-  In e kids -> accessible e = true -> pub_class (e_kind e) = Some w ->
+  names_distinct cfg m ->
+  In e kids -> accessible e = true -> shown (c_display cfg) e = true -> pub_class (e_kind e) = Some w ->
   used_lookup (xlate idf cfg b None None true m) w (e_name e)
-  = Ok (Some (xlate idf cfg b (Some KModule) (own_url None None KModule (idf id))
-                    (shown (c_display cfg) e) e)).
+  = Ok (Some (xlate idf cfg b (Some KModule) (own_url None None KModule (idf id)) true e)).
 Proof.
-  intros m ND Hin Ha Hp.
+  intros m ND Hin Ha Hs Hp.
   destruct (pub_class_in _ _ Hp) as [Hw _].
   unfold used_lookup, m. rewrite xlate_eq. cbv zeta.
   rewrite module_pub_all, (module_pub_attr _ _ _ _ _ _ w Hw).
@@ -424,9 +427,28 @@ Proof.
     rewrite (map_ext _ (fun c => lower (e_name c))) by (intros c; apply lower_idem).
     apply (ND w Hw).
   - apply (in_map (fun c => (lower (e_name c), xlate idf cfg b (Some KModule)
-        (own_url None None KModule (idf id)) (shown (c_display cfg) c) c)) _ e).
-    apply (member_in m); assumption.
+        (own_url None None KModule (idf id)) true c)) _ e).
+    apply (member_in cfg m); auto.
   - apply lower_idem.
+Qed.
+
+(* an accessible entity that A does not display is not in the description: B gets no object (and
+   so no link) for it *)
+Theorem used_lookup_undisplayed idf cfg b id name p kids w n :
+  let m := Ent id KModule name p kids in
+  (forall e, In e kids -> lower (e_name e) = lower n -> shown (c_display cfg) e = false) ->
+  In w PUB_DICTS ->
+  used_lookup (xlate idf cfg b None None true m) w n = Ok None.
+Proof.
+  intros m H Hw. unfold used_lookup, m. rewrite xlate_eq. cbv zeta.
+  rewrite module_pub_all, (module_pub_attr _ _ _ _ _ _ w Hw). f_equal.
+  rewrite dict_as_map. apply fold_last_none.
+  intros [k v] Hin. simpl. apply in_map_iff in Hin as (c & [= <- <-] & Hc).
+  apply in_flat_map in Hc as (k' & _ & Hc).
+  destruct (opt_eqb str_eqb (pub_class k') (Some w)); [|destruct Hc].
+  apply filter_In in Hc as [Hc S]. unfold dict_sel, listed in S. simpl in S.
+  apply andb_true_iff in S as [_ S].
+  apply str_eqb_neq. intros E. rewrite lower_idem in E. rewrite (H c Hc E) in S. discriminate.
 Qed.
 
 (* ================================================================= re-basing A's relative URLs *)
@@ -810,7 +832,7 @@ Qed.
 Record wf_A (A : aproject) : Prop := {
   wf_kinds : Forall (fun m => e_kind m = KModule /\ no_module_below m = true) (a_modules A);
   wf_modnames : NoDup (map (fun m => lower (e_name m)) (a_modules A));
-  wf_names : Forall names_distinct (a_modules A)
+  wf_names : Forall (names_distinct (a_cfg A)) (a_modules A)
 }.
 
 Theorem use_module_roundtrip A b locals m :
@@ -1047,19 +1069,22 @@ Proof.
   destruct (e_perm c); assumption.
 Qed.
 
-Lemma class_members_filter m w c :
-  In c (class_members m w)
+Lemma class_members_filter cfg m w c :
+  e_kind m = KModule -> display_default (c_display cfg) = true ->
+  In c (class_members cfg m w)
   <-> In c (filter (fun e => accessible e && opt_eqb str_eqb (pub_class (e_kind e)) (Some w)) (e_kids m)).
 Proof.
-  unfold class_members. rewrite in_flat_map, filter_In. split.
+  intros Km DD. unfold class_members. rewrite in_flat_map, filter_In. split.
   - intros (k' & Hk & H). destruct (opt_eqb str_eqb (pub_class k') (Some w)) eqn:E; [|destruct H].
-    apply filter_In in H as [Hc S]. unfold dict_sel in S. apply andb_true_iff in S as [S1 S2].
+    apply filter_In in H as [Hc S]. unfold dict_sel in S. apply andb_true_iff in S as [S _].
+    apply andb_true_iff in S as [S1 S2].
     split; [assumption|]. rewrite S2. simpl.
     assert (e_kind c = k') by (destruct (e_kind c), k'; simpl in S1; congruence). now subst k'.
   - intros [Hc S]. apply andb_true_iff in S as [S1 S2]. exists (e_kind c). split.
     + destruct (pub_class (e_kind c)) as [w'|] eqn:P; [|discriminate].
       now apply (pub_class_in _ w').
-    + rewrite S2. apply filter_In. split; [assumption|]. unfold dict_sel. now rewrite kind_eqb_refl, S1.
+    + rewrite S2. apply filter_In. split; [assumption|]. unfold dict_sel, listed. rewrite Km. simpl.
+      now rewrite kind_eqb_refl, S1, (shown_default _ c DD), S1.
 Qed.
 
 Lemma module_exact_export idf cfg id name p kids :
@@ -1081,7 +1106,7 @@ Proof.
     unfold spec_pub.
     apply same_set_incl; intros x Hx; apply in_map_iff in Hx as (e & <- & He); apply in_map_iff;
       exists e; (split; [reflexivity|]);
-      apply (class_members_filter (Ent id KModule name p kids) c e); exact He.
+      apply (class_members_filter cfg (Ent id KModule name p kids) c e eq_refl DD); exact He.
   - apply forallb_forall. intros l Hl.
     assert (G : jlist (jget l (JDict (node_entries KModule name url p DV LV))) = LV l).
     { unfold LIST_CLASSES in Hl. simpl in Hl. destruct Hl as [<-|[<-|[<-|[<-|[<-|[<-|[]]]]]]]; reflexivity. }
@@ -1297,7 +1322,8 @@ Qed.
    the entity it imports carries the URL  base / (A's own URL of e) *)
 Theorem roundtrip A b v locals m e w :
   wf_A A -> base_ok b ->
-  In m (a_modules A) -> In e (e_kids m) -> accessible e = true -> pub_class (e_kind e) = Some w ->
+  In m (a_modules A) -> In e (e_kids m) -> accessible e = true ->
+  shown (c_display (a_cfg A)) e = true -> pub_class (e_kind e) = Some w ->
   lower_in (e_name m) locals = false ->
   no_slash (ident_of A (e_id m)) = true -> no_slash (ident_of A (e_id e)) = true ->
   exists tops xm x u mu,
@@ -1308,14 +1334,14 @@ Theorem roundtrip A b v locals m e w :
     x_name x = JStr (e_name e) /\
     kid_url (ident_of A) m e = Some u /\ x_url x = JStr (spec_join b u).
 Proof.
-  intros W Hb Hm He Ha Hp Hl Nm Ne.
+  intros W Hb Hm He Ha Hs Hp Hl Nm Ne.
   pose proof (wf_kinds A W) as WK. rewrite Forall_forall in WK. destruct (WK m Hm) as [Km _].
   pose proof (wf_names A W) as WN. rewrite Forall_forall in WN. specialize (WN m Hm).
   destruct (kid_url_some (ident_of A) m e w Km Hp) as (u & Hu).
   exists (xmods A b), (xlate (ident_of A) (a_cfg A) b None None true m).
   destruct m as [id k name p kids]. simpl in Km, He. subst k.
   exists (xlate (ident_of A) (a_cfg A) b (Some KModule) (own_url None None KModule (ident_of A id))
-                (shown (c_display (a_cfg A)) e) e), u,
+                true e), u,
          (s "module" ++ s "/" ++ ident_of A id ++ s ".html").
   split; [apply load_json_export|].
   split; [now apply use_module_roundtrip|].
@@ -1379,16 +1405,14 @@ Proof. split; [repeat constructor|]. split; vm_compute; reflexivity. Qed.
 Definition A_private_only : aproject :=
   {| a_modules := [Ent 1 KModule (s "m") Public [Ent 2 KSubroutine (s "solve") Public []]];
      a_cfg := {| c_display := [Private]; c_internals := false |}; a_pre := [] |}.
-Lemma target_written_refuted :
-  exists m e u,
-    In m (a_modules A_private_only) /\ e_kind m = KModule /\ In e (e_kids m) /\ importable e = true /\
-    kid_url (ident_of A_private_only) m e = Some u /\ ~ In (page_of u) (pages_written A_private_only).
-Proof.
-  exists (Ent 1 KModule (s "m") Public [Ent 2 KSubroutine (s "solve") Public []]),
-         (Ent 2 KSubroutine (s "solve") Public []), (s "proc/solve.html").
-  repeat split; try (vm_compute; tauto).
-  vm_compute. intros [H|[]]. discriminate H.
-Qed.
+(* the former witness of the dead link: `solve` is public but not displayed - it is no longer in the
+   description, B gets no object and no link for it *)
+Example undisplayed_regression :
+  jget (s "pub_procs") (hd JNull (jlist (jget (s "modules") (export A_private_only [])))) = Some (JDict []) /\
+  (exists tops xm, load_json (BLocal (s "/a/doc")) (export A_private_only []) = Ok tops /\
+                   find_used_module [] tops (s "m") = Ok (Some (HExt xm)) /\
+                   used_lookup xm (s "pub_procs") (s "solve") = Ok None).
+Proof. split; [reflexivity|]. do 2 eexists. vm_compute. repeat split; reflexivity. Qed.
 Lemma export_exact_refuted_public_unlisted :
   exact_on (a_modules A_private_only) (export A_private_only []) = false.
 Proof. vm_compute. reflexivity. Qed.
@@ -1506,7 +1530,8 @@ Qed.
 (* the round trip without any assumption about names *)
 Theorem roundtrip_all A b v locals m e w :
   wf_A A -> base_ok b ->
-  In m (a_modules A) -> In e (e_kids m) -> accessible e = true -> pub_class (e_kind e) = Some w ->
+  In m (a_modules A) -> In e (e_kids m) -> accessible e = true ->
+  shown (c_display (a_cfg A)) e = true -> pub_class (e_kind e) = Some w ->
   lower_in (e_name m) locals = false ->
   exists tops xm x u mu,
     load_json b (export A v) = Ok tops /\
@@ -1584,3 +1609,283 @@ Proof. reflexivity. Qed.
 Example find_local_first_ex :
   defined_locally [(CProcedures, [s "Other"])] (s "other") = true.
 Proof. reflexivity. Qed.
+
+(* ================================================================= what is exported is documented *)
+
+Lemma class_member_facts cfg m e w :
+  e_kind m = KModule -> In e (class_members cfg m w) ->
+  In e (e_kids m) /\ accessible e = true /\ shown (c_display cfg) e = true.
+Proof.
+  intros Km H. unfold class_members in H. apply in_flat_map in H as (k' & _ & H).
+  destruct (opt_eqb str_eqb (pub_class k') (Some w)); [|destruct H].
+  apply filter_In in H as [Hin S]. unfold dict_sel, listed in S. rewrite Km in S. simpl in S.
+  apply andb_true_iff in S as [S S3]. apply andb_true_iff in S as [_ S2]. auto.
+Qed.
+
+(* every entity that a table of public names of the description holds ([class_members] is exactly the
+   content of that table) has its page among the pages A writes *)
+Theorem exported_target_written A m e w u :
+  In m (a_modules A) -> e_kind m = KModule -> In e (class_members (a_cfg A) m w) ->
+  no_hash (ident_of A (e_id m)) = true -> no_hash (ident_of A (e_id e)) = true ->
+  kid_url (ident_of A) m e = Some u ->
+  In (page_of u) (pages_written A).
+Proof.
+  intros Hm Km He Nm Ne Hu. destruct (class_member_facts _ _ _ _ Km He) as (Hin & _ & Hs).
+  now apply (target_written A m e u).
+Qed.
+
+Lemma pub_table_is_class_members idf cfg id name p kids w :
+  jkeys (jget w (export_ent idf cfg None None true (Ent id KModule name p kids)))
+  = (if str_in w PUB_DICTS then map (fun c => lower (e_name c)) (class_members cfg (Ent id KModule name p kids) w)
+     else jkeys (jget w (export_ent idf cfg None None true (Ent id KModule name p kids)))).
+Proof.
+  destruct (str_in w PUB_DICTS) eqn:E; [|reflexivity].
+  apply str_in_In in E. rewrite export_ent_eq. cbv zeta.
+  set (url := own_url None None KModule (idf id)).
+  match goal with
+  | |- context [node_entries KModule name url p ?dv ?lv] => set (DV := dv); set (LV := lv)
+  end.
+  assert (G : jkeys (jget w (JDict (node_entries KModule name url p DV LV))) = map fst (DV w)).
+  { unfold PUB_DICTS in E. simpl in E. destruct E as [<-|[<-|[<-|[<-|[]]]]]; reflexivity. }
+  rewrite G. unfold DV. rewrite dict_as_map, map_map. reflexivity.
+Qed.
+
+(* ================================================================= the shape of A's URLs at any depth *)
+
+(* <page dir>/<one segment of at least two characters without '/'> *)
+Definition shaped (u : str) : Prop :=
+  exists d f, u = d ++ s "/" ++ f /\ page_dir d /\ no_slash f = true /\ 2 <= length f.
+Definition purl_ok (purl : option str) : Prop :=
+  match purl with Some pu => shaped pu | None => True end.
+
+Lemma page_dir_strip d r : page_dir d -> strip_frag (d ++ s "/" ++ r) = d ++ s "/" ++ strip_frag r.
+Proof. intros [E|[E|[E|E]]]; subst d; reflexivity. Qed.
+
+Lemma strip_frag_length_le x : length (strip_frag x) <= length x.
+Proof. induction x as [|c x IH]; simpl; [lia|]. destruct (ch_eqb c "#"); simpl; lia. Qed.
+
+Lemma own_url_shaped (idf : nat -> str) pk purl k (id : nat) u :
+  (forall i, no_slash (idf i) = true) -> purl_ok purl ->
+  own_url pk purl k (idf id) = Some u -> shaped u.
+Proof.
+  intros N P. unfold own_url.
+  destruct (dir_of pk k) as [d|] eqn:Ed.
+  - intros [= <-]. exists d, (idf id ++ s ".html"). repeat split.
+    + now apply (dir_of_page pk k).
+    + rewrite no_slash_app, N. reflexivity.
+    + rewrite app_length. simpl. lia.
+  - destruct (anchored k); [|discriminate].
+    destruct pk as [pk0|]; [|discriminate]. destruct purl as [pu|]; [|discriminate].
+    intros [= <-]. destruct P as (d & f & -> & Pd & Nf & Lf).
+    exists d, (strip_frag f ++ s "#" ++ obj_str k ++ s "-" ++ quote (idf id)). repeat split.
+    + rewrite (page_dir_strip d f Pd). rewrite <- !app_assoc. reflexivity.
+    + exact Pd.
+    + rewrite !no_slash_app, strip_frag_noslash, obj_noslash, quote_noslash; auto.
+    + rewrite !app_length. simpl. lia.
+Qed.
+
+Lemma rebase_shaped b u : base_ok b -> shaped u -> rebase b u = spec_join b u.
+Proof.
+  intros Hb (d & f & -> & Pd & Nf & Lf).
+  assert (Sd : seg_ok d = true) by now apply page_dir_ok.
+  assert (Sf : seg_ok f = true) by now apply seg_ok_long.
+  destruct b as [dir|url]; simpl.
+  - now apply path_join_two.
+  - destruct Hb as (u0 & -> & Hp). now apply url_join_two.
+Qed.
+
+(* ================================================================= names along the tree *)
+
+(* in every entity, two children in the same list have different names (case-insensitively) *)
+Definition slot_key (c : ent) : str * str := (slot_of (e_kind c), lower (e_name c)).
+Fixpoint tree_names_ok (e : ent) : Prop :=
+  match e with
+  | Ent _ _ _ _ kids =>
+    NoDup (map slot_key kids) /\
+    (fix go (l : list ent) : Prop := match l with [] => True | c :: r => tree_names_ok c /\ go r end) kids
+  end.
+
+Lemma tree_names_kids id k name p kids :
+  tree_names_ok (Ent id k name p kids) ->
+  NoDup (map slot_key kids) /\ (forall c, In c kids -> tree_names_ok c).
+Proof.
+  simpl. intros [ND H]. split; [exact ND|].
+  induction kids as [|x r IH]; intros c []; subst.
+  - apply H.
+  - destruct H as [_ H]. inversion ND; subst. now apply IH.
+Qed.
+
+Lemma nodup_map_inj {X Y} (f : X -> Y) l a b :
+  NoDup (map f l) -> In a l -> In b l -> f a = f b -> a = b.
+Proof.
+  induction l as [|x l IH]; intros ND Ha Hb E; [destruct Ha|].
+  simpl in ND. inversion ND as [|? ? Hn ND']; subst.
+  destruct Ha as [<-|Ha]; destruct Hb as [<-|Hb]; auto.
+  - exfalso. apply Hn. rewrite E. now apply in_map.
+  - exfalso. apply Hn. rewrite <- E. now apply in_map.
+Qed.
+
+(* ================================================================= slot_child on an imported node *)
+
+Lemma slot_child_node b k name url p dx lx k' n :
+  slot_child (node_x b k name url p dx lx) (slot_of k') n
+  = if str_in (slot_of k') (list_slots k)
+    then find (fun o => match x_name o with JStr y => str_eqb (lower y) (lower n) | _ => false end)
+              (lx (slot_of k'))
+    else None.
+Proof. destruct k, k'; reflexivity. Qed.
+
+Lemma find_map {X Y} (P : Y -> bool) (f : X -> Y) l :
+  find P (map f l) = option_map f (find (fun x => P (f x)) l).
+Proof. induction l as [|x l IH]; simpl; [reflexivity|]. destruct (P (f x)); [reflexivity|exact IH]. Qed.
+
+Definition path_kids (idf : nat -> str) (b : base) (k : kind) (url : option str) (x : xval) : list ent -> bool :=
+  fix go (l : list ent) : bool :=
+    match l with
+    | [] => true
+    | c :: r =>
+      match slot_child x (slot_of (e_kind c)) (e_name c) with
+      | Some xc => path_ok idf b (Some k) url c xc
+      | None => true
+      end && go r
+    end.
+
+Lemma path_ok_eq idf b pk purl id k name p kids x :
+  path_ok idf b pk purl (Ent id k name p kids) x =
+  (let url := own_url pk purl k (idf id) in
+   match url, x_url x with
+   | Some u, JStr xu => str_eqb xu (spec_join b u)
+   | Some _, _ => false
+   | None, _ => true
+   end && path_kids idf b k url x kids).
+Proof. reflexivity. Qed.
+
+Lemma path_kids_all idf b k url x kids :
+  (forall c, In c kids ->
+     match slot_child x (slot_of (e_kind c)) (e_name c) with
+     | Some xc => path_ok idf b (Some k) url c xc = true
+     | None => True
+     end) ->
+  path_kids idf b k url x kids = true.
+Proof.
+  induction kids as [|c r IH]; intros H; simpl; [reflexivity|].
+  rewrite IH by (intros c' Hc; apply H; now right).
+  specialize (H c (or_introl eq_refl)).
+  destruct (slot_child x (slot_of (e_kind c)) (e_name c)); [now rewrite H|reflexivity].
+Qed.
+
+(* ================================================================= the theorem *)
+
+Theorem path_ok_xlate idf cfg b e :
+  base_ok b -> (forall i, no_slash (idf i) = true) ->
+  forall pk purl kept, tree_names_ok e -> purl_ok purl ->
+    path_ok idf b pk purl e (xlate idf cfg b pk purl kept e) = true.
+Proof.
+  intros Hb N. induction e as [id k name p kids IH] using ent_rect'.
+  intros pk purl kept T P.
+  destruct (tree_names_kids _ _ _ _ _ T) as [ND TK].
+  rewrite path_ok_eq, xlate_eq. cbv zeta.
+  set (url := own_url pk purl k (idf id)).
+  assert (PU : purl_ok url).
+  { unfold url. destruct (own_url pk purl k (idf id)) as [u|] eqn:E; [|exact I].
+    simpl. eapply own_url_shaped; eauto. }
+  match goal with
+  | |- context [node_x b k name url p ?dx ?lx] => set (DX := dx); set (LX := lx)
+  end.
+  apply andb_true_iff. split.
+  - unfold node_x. cbn [x_url]. destruct url as [u|] eqn:E; [|reflexivity].
+    simpl url_rel. rewrite (rebase_shaped b u Hb PU). apply str_eqb_refl.
+  - apply path_kids_all. intros c Hc.
+    rewrite slot_child_node.
+    destruct (str_in (slot_of (e_kind c)) (list_slots k)); [|exact I].
+    unfold LX. rewrite sel_map_filter, find_map.
+    destruct (find _ (filter _ kids)) as [c'|] eqn:F; [|exact I].
+    simpl. apply find_some in F as [Hf Hn].
+    apply filter_In in Hf as [Hc' Sel].
+    rewrite x_name_xlate in Hn. apply str_eqb_eq in Hn.
+    unfold list_sel in Sel. apply andb_true_iff in Sel as [Sl _]. apply str_eqb_eq in Sl.
+    assert (c' = c).
+    { apply (nodup_map_inj slot_key kids); auto. unfold slot_key. now rewrite Sl, Hn. }
+    subst c'. rewrite Forall_forall in IH. apply IH; auto.
+Qed.
+
+Lemma Forall2_map_r {X Y} (R : X -> Y -> Prop) (f : X -> Y) l :
+  (forall x, In x l -> R x (f x)) -> Forall2 R l (map f l).
+Proof.
+  induction l as [|x l IH]; intros H; simpl; constructor.
+  - apply H. now left.
+  - apply IH. intros y Hy. apply H. now right.
+Qed.
+
+(* everything B holds after loading what A exported, at every path of A's entity trees *)
+Theorem roundtrip_paths A b v :
+  base_ok b -> Forall tree_names_ok (a_modules A) ->
+  exists tops, load_json b (export A v) = Ok tops /\
+    Forall2 (fun m x => path_ok (ident_of A) b None None m x = true) (a_modules A) tops.
+Proof.
+  intros Hb T. exists (xmods A b). split; [apply load_json_export|].
+  unfold xmods. apply Forall2_map_r. intros m Hm. rewrite Forall_forall in T.
+  apply path_ok_xlate; auto using ident_of_noslash. exact I.
+Qed.
+
+(* ... and under every object a USE of B imports *)
+Theorem roundtrip_paths_use A b v locals m e w :
+  wf_A A -> base_ok b -> tree_names_ok m ->
+  In m (a_modules A) -> In e (e_kids m) -> accessible e = true ->
+  shown (c_display (a_cfg A)) e = true -> pub_class (e_kind e) = Some w ->
+  lower_in (e_name m) locals = false ->
+  exists tops xm x,
+    load_json b (export A v) = Ok tops /\
+    find_used_module locals tops (e_name m) = Ok (Some (HExt xm)) /\
+    used_lookup xm w (e_name e) = Ok (Some x) /\
+    path_ok (ident_of A) b (Some KModule) (module_url (ident_of A) m) e x = true.
+Proof.
+  intros W Hb T Hm He Ha Hs Hp Hl.
+  pose proof (wf_kinds A W) as WK. rewrite Forall_forall in WK. destruct (WK m Hm) as [Km _].
+  pose proof (wf_names A W) as WN. rewrite Forall_forall in WN. specialize (WN m Hm).
+  destruct m as [id k name p kids]. simpl in Km, He. subst k.
+  destruct (tree_names_kids _ _ _ _ _ T) as [_ TK].
+  exists (xmods A b), (xlate (ident_of A) (a_cfg A) b None None true (Ent id KModule name p kids)),
+         (xlate (ident_of A) (a_cfg A) b (Some KModule) (own_url None None KModule (ident_of A id)) true e).
+  split; [apply load_json_export|].
+  split; [now apply use_module_roundtrip|].
+  split; [now apply used_lookup_roundtrip|].
+  unfold module_url. simpl e_kind. simpl e_id.
+  apply path_ok_xlate; auto using ident_of_noslash.
+  simpl. eapply (own_url_shaped (ident_of A) None None KModule id); auto using ident_of_noslash. exact I.
+Qed.
+
+(* non-vacuity: two types of one module with equally named component and binding *)
+Definition A_twin : aproject :=
+  {| a_modules :=
+       [Ent 1 KModule (s "shapes") Public
+          [Ent 2 KType (s "circle_t") Public
+             [Ent 3 KVar (s "size") Public []; Ent 4 KBound (s "area") Public []];
+           Ent 5 KType (s "square_t") Public
+             [Ent 6 KVar (s "size") Public []; Ent 7 KBound (s "area") Public []];
+           Ent 8 KSubroutine (s "carea") Public [Ent 10 KVar (s "tmp") Public []];
+           Ent 9 KSubroutine (s "sarea") Public [Ent 11 KVar (s "tmp") Public []]]];
+     a_cfg := cfg_default; a_pre := [] |}.
+
+Example roundtrip_paths_ex :
+  Forall tree_names_ok (a_modules A_twin) /\ wf_A A_twin /\ base_ok (BLocal (s "/srv/a/doc")) /\
+  (exists tops xm xt,
+     load_json (BLocal (s "/srv/a/doc")) (export A_twin []) = Ok tops /\
+     find_used_module [] tops (s "shapes") = Ok (Some (HExt xm)) /\
+     used_lookup xm (s "pub_types") (s "square_t") = Ok (Some xt) /\
+     option_map x_url (slot_child xt (s "variables") (s "size"))
+       = Some (JStr (s "/srv/a/doc/type/square_t.html#variable-size~2")) /\
+     option_map x_url (slot_child xt (s "boundprocs") (s "area"))
+       = Some (JStr (s "/srv/a/doc/type/square_t.html#boundprocedure-area~2")) /\
+     forallb (fun mx => path_ok (ident_of A_twin) (BLocal (s "/srv/a/doc")) None None (fst mx) (snd mx))
+             (combine (a_modules A_twin) tops) = true).
+Proof.
+  split; [|split; [|split; [exact I|]]].
+  - repeat constructor; simpl; intuition discriminate.
+  - split.
+    + repeat constructor.
+    + vm_compute. repeat constructor; simpl; intuition discriminate.
+    + repeat constructor; intros w H; unfold PUB_DICTS in H; simpl in H;
+        destruct H as [<-|[<-|[<-|[<-|[]]]]]; vm_compute; repeat constructor; simpl; intuition discriminate.
+  - do 3 eexists. vm_compute. repeat split; reflexivity.
+Qed.
